@@ -363,6 +363,17 @@ K("C17/walker/op-sequences", ["C17"], CH + "c17_walker_op_sequences_fixed_game",
   "for one fixed 4-ply game and EVERY sequence of 5 operations from {next, prev, start, end}: each returned move comes with exactly the position that preceded it (raw fields, hash, combined occupancy), None exactly at the ends, and the chain is untouched (real make/unmake code)",
   bounded="one fixed game of 4 plies, operation sequences of length 5", timeout=3600, mem_gb=20)
 
+# ---------------------------------------------------------------------------------------------
+# C19: unsafe-site map (lib/unsafe_map.py) + every obligation that executes / justifies a site
+# ---------------------------------------------------------------------------------------------
+import unsafe_map as _um
+_cov = _um.covering_obligations()
+for _o in OBS:
+    if _o["id"] in _cov and "C19" not in _o["props"]:
+        _o["props"].append("C19")
+OBS.append(dict(id="C19/unsafe-site-map", props=["C19"], backend="scan", fns=[], tier="quick", assumes=sorted(_cov), timeout=60,
+                stmt="every `unsafe` site of the working tree (scan of chess/src and chess_base/src) is listed in lib/unsafe_map.py with the obligations that execute it under Kani's pointer / bounds / intrinsic-precondition / unreachable checks for all inputs satisfying the invariant, or that prove the callee's precondition (Verus); a new or moved site makes this obligation undecided; sites justified only by an assumption (A-CAP, public unsafe fns) are reported as assumptions"))
+
 
 def by_id():
     return {o["id"]: o for o in OBS}
